@@ -678,6 +678,108 @@ def wrapper_rule(rep, wd):
     return n
 
 
+# -----------------------------------------------------------------------------------------------------------------
+# B13.herk: herk(c_side, alpha, a, beta, c): the c_side triangle of c := alpha a a^H + beta c  (a is n x k), against
+#   zherk(uplo, trans, n, k, alpha, A', lda, beta, C', ldc):  C' := alpha G G^H + beta C',  G = A' ('N', n x k) or A'^H ('C'), on the uplo triangle of C'
+# With C'[i,j] = c[i][j] the call must have G = a; with C'[i,j] = c[j][i] (transposed output) it must have G = conj(a), because a a^H is hermitian.
+HERK_DRIVER = r"""
+#include <boost/multi/adaptors/blas/herk.hpp>
+#include <complex>
+namespace multi = boost::multi;
+using cplx = std::complex<double>;
+static inline auto mk0() { return multi::layout_t<0>{multi::monostate{}, multi::monostate{}, 0, 1}; }
+static inline auto mk1(long s0, long o0, long n0) { return multi::layout_t<1>{mk0(), s0, o0, n0}; }
+static inline auto mk2(long s0, long o0, long n0, long s1, long o1, long n1) { return multi::layout_t<2>{mk1(s1, o1, n1), s0, o0, n0}; }
+#define HP char fl, cplx* ab, long a0, long a1, long Nn, long K, cplx* cb, long c0, long c1, double al, double be
+#define HOPS multi::subarray<cplx, 2> a(mk2(a0, 0, Nn*a0, a1, 0, K*a1), ab), c(mk2(c0, 0, Nn*c0, c1, 0, Nn*c1), cb); auto const fill = static_cast<multi::blas::filling>(fl)
+extern "C" void h_N(HP) { HOPS; multi::blas::herk(fill, al, a, be, c); }
+extern "C" void h_C(HP) { HOPS; multi::blas::herk(fill, al, multi::blas::conj(a), be, c); }
+extern "C" void h_enum(long* out) { out[0] = static_cast<char>(multi::blas::filling::lower); out[1] = static_cast<char>(multi::blas::filling::upper); }
+"""
+
+
+def herk_rule(rep, wd):
+    src = os.path.join(wd, "herk.cpp")
+    with open(src, "w") as fh:
+        fh.write(HERK_DRIVER)
+    text = irval.emit_ir(src, src[:-4] + ".ll", defines=("-UNDEBUG", "-fno-vectorize", "-fno-slp-vectorize", "-mllvm", "-inline-threshold=1000000"))
+    funcs, structs = irval.parse_module(text)
+    ev = irval.Evaluator(funcs, structs)
+    ev.record_external = lambda c: c == "zherk_"
+    rep.units.add("herk.cpp")
+    ev.run("h_enum", [A("out")], {"out": POS})
+    LOWER, UPPER = int(ev.stores[0].const_value()), int(ev.stores[8].const_value())
+    n = 0
+    lay = (("row-major", lambda rows, cols, p: (cols + A(p), P.const(1))), ("col-major", lambda rows, cols, p: (P.const(1), rows + A(p))))
+    for variant, conjA in (("N", False), ("C", True)):
+        for fname_, fl in (("lower", LOWER), ("upper", UPPER)):
+            for (an, af), (cn, cf) in itertools.product(lay, repeat=2):
+                for nsz in (">",):
+                    Nn = 2 + A("nx") if nsz == ">" else P.const(1)
+                    K = 2 + A("kx")
+                    a0, a1 = af(Nn, K, "ap")
+                    c0, c1 = cf(Nn, Nn, "cp")
+                    signs = {"ab": POS, "cb": POS, "nx": NONNEG, "kx": NONNEG, "ap": NONNEG, "cp": NONNEG}
+                    args = [P.const(fl), A("ab"), a0, a1, Nn, K, A("cb"), c0, c1, irval.atom("float", "al"), irval.atom("float", "be")]
+                    case = "%s n%s a:%s c:%s" % (fname_, nsz, an, cn)
+                    key = "B13.herk<%s>[%s]" % (variant, case)
+                    n += 1
+                    try:
+                        ev.run("h_" + variant, args, signs)
+                        calls = [c for c in ev.extcalls if c[0] == "zherk_"]
+                    except irval.AssertFires as e:
+                        rep.ok(key, "B13.reject", dict(rejected=str(e)[:80]), nontrivial=False)
+                        continue
+                    except irval.Inconclusive as e:
+                        rep.inconclusive(key, "B13.herk", str(e))
+                        continue
+                    if len(calls) != 1:
+                        rep.violated(key, "B13.herk", "herk<%s> (%s) neither calls zherk nor rejects the combination" % (variant, case), dict(case=case))
+                        continue
+                    vals, der, stk = calls[0][1], calls[0][2], calls[0][3]
+
+                    def arg(i):
+                        return der[i] if der[i] is not None else vals[i]
+                    U, T, nn, kk, alp, pa, lda, bet, pc, ldc = (arg(i) for i in range(10))
+                    U, T = int(U.const_value()), int(T.const_value())
+                    i, j, l = A("i"), A("j"), A("l")
+                    ri = {"i": P.const(0), "j": P.const(0)} if nsz == "1" else {}
+                    why = []
+                    if nn != Nn or kk != K:
+                        why.append("(n, k) = (%r, %r), expected (%r, %r)" % (nn, kk, Nn, K))
+                    cadr = (pc + (i + j * ldc) * ELEM).subst(ri)
+                    c_same = cadr == (A("cb") + (i * c0 + j * c1) * ELEM).subst(ri)
+                    c_trans = cadr == (A("cb") + (j * c0 + i * c1) * ELEM).subst(ri)
+                    if not (c_same or c_trans):
+                        why.append("C'[i + j ldc] is neither c[i][j] nor c[j][i]")
+                    gadr = (pa + ((i + l * lda) if T == 78 else (l + i * lda)) * ELEM).subst(ri)
+                    if gadr != (A("ab") + (i * a0 + l * a1) * ELEM).subst(ri):
+                        why.append("op(A')[i,l] does not address a[i][l]")
+                    if not why:
+                        g_conj = (T == 67) != conjA                     # G = conj^g_conj(a)
+                        ok_same = c_same and not g_conj
+                        ok_trans = c_trans and g_conj
+                        if nsz == "1":
+                            # a 1 x 1 output: a a^H is real, so G = a and G = conj(a) give the same value, and both orientations coincide
+                            ok_same = ok_trans = True
+                        if not (ok_same or ok_trans):
+                            why.append("the product computed is %sa %sa^H but the output is addressed as %s" % ("conj " if g_conj else "", "conj " if g_conj else "",
+                                                                                                                     "c transposed" if (c_trans and not c_same) else "c"))
+                        upper = fl == UPPER
+                        if nsz != "1":
+                            want_U = upper if (c_same and not c_trans) else (not upper)
+                            if (U == 85) != want_U:
+                                why.append("uplo '%s' names the wrong triangle of C' (logical %s triangle, C' is %s)" % (chr(U), fname_, "c" if c_same else "c transposed"))
+                        if alp != irval.atom("float", "al") or bet != irval.atom("float", "be"):
+                            why.append("alpha / beta are not forwarded")
+                    if why:
+                        rep.violated(key, "B13.herk", "herk<%s> (%s): the zherk call ('%s','%s',n=%r,k=%r,lda=%r,ldc=%r) does not compute the stated update: %s"
+                                     % (variant, case, chr(U), chr(T), nn, kk, lda, ldc, "; ".join(why)), dict(case=case, reasons=why))
+                    else:
+                        rep.ok(key, "B13.herk", None)
+    return n
+
+
 def run(tier):
     rep = common.Report("C13", tier, "other",
                         "one obligation per (dispatcher variant, size case, layout case of each operand): the BLAS call issued on that case denotes the product, "
@@ -824,6 +926,8 @@ def run(tier):
                         rep.ok(key, "B13.gemv", None)
                     else:
                         rep.violated(key, "B13.gemv", "the xGEMV call issued for %s is not the product: %s" % (case, "; ".join(why)[:300]), dict(case=case, reason=why))
+    nh = herk_rule(rep, wd)
+    rep.need_instances("B13.herk cases", nh, 16)
     nw = wrapper_rule(rep, wd)
     rep.need_instances("R13.conj wrapper cases", nw, 2)
     ntr = trsm_rule(rep, wd)
